@@ -186,6 +186,11 @@ class History:
         v = self.v
         big = self.size == 'big'
         if v in V1:
+            if r.random() < 0.2:
+                # holder of both guarantees whose energy allowance exceeds the staking minimum
+                mc = self.minconf
+                self.dual = getattr(self, 'dual', set()) | {u}
+                return [u, mc + r.choice([0, 0, 1, 2]), mc + r.choice([1, 1, 2, 3]), 1]
             st = r.choice([0, 0, 1, 1, 2, 3, 4]) * (3 if big and r.random() < 0.3 else 1)
             en = r.choice([0, 0, 1, 2, 3])
             return [u, st, en, int(r.random() < 0.35)]
@@ -433,6 +438,8 @@ class History:
                 g, m = ut[2 + 2 * k], ut[3 + 2 * k]
                 cands += [m, max(0, m - 1), g, sum(ut[2 + 2 * j] for j in range(ut[1]))]
         t = min(al, r.choice(cands))
+        if self.v in V1 and ut and u in getattr(self, 'dual', set()) and ut[1] > self.minconf and r.random() < 0.6:
+            t = r.randint(self.minconf, ut[1] - 1)      # staking condition met, migration condition not
         self.targets[u] = t
         return t
 
@@ -441,6 +448,14 @@ class History:
         v = self.v
         caller = r.choice([OWNER, OWNER, SUPPORT, self.non_owner()])
         us = r.sample(self.users, min(len(self.users), r.choice([1, 1, 2])))
+        nc = [u for u in self.users if u in getattr(self, 'nft_conf', set())]
+        if v in NFTV and nc and r.random() < 0.7:
+            caller = r.choice([OWNER, OWNER, OWNER, SUPPORT, self.non_owner()])
+            # a mixed batch: users without an NFT confirmation first, NFT entrants last (or shuffled)
+            plain = [u for u in self.users if u not in nc]
+            us = r.sample(plain, min(len(plain), r.randint(1, 3))) + r.sample(nc, r.randint(1, min(2, len(nc))))
+            if r.random() < 0.3:
+                r.shuffle(us)
         if r.random() < 0.06:
             us = us + us[:1]
         if r.random() < 0.06:
@@ -450,6 +465,8 @@ class History:
             ep = 'refund'
         rec = self.call(caller, [ep, len(us)] + us)
         self.last_blacklisted = list(us)
+        if rec['status'] == 'ok' and ep == 'blacklist':
+            self.nft_conf = getattr(self, 'nft_conf', set()) - set(us)
         if r.random() < 0.6 and rec['status'] == 'ok':
             # attempts of the blacklisted user
             u = us[0]
@@ -470,7 +487,10 @@ class History:
         nc = self.view('nftCost') or [self.nft[0][0], self.nft[0][1], self.nft[1]]
         tok, nonce, amt = nc
         if good:
-            return self.call(u, 'confirmNft', pay=[(tok, nonce, amt)], kind='confirmNft')
+            rec = self.call(u, 'confirmNft', pay=[(tok, nonce, amt)], kind='confirmNft')
+            if rec['status'] == 'ok':
+                self.nft_conf = getattr(self, 'nft_conf', set()) | {u}
+            return rec
         ch = r.randrange(4)
         if ch == 0:
             pay = [(tok, nonce, amt + 1)]
@@ -521,7 +541,7 @@ class History:
                 self.confirm(r.choice(self.users + STRANGERS), 'bad')
             elif x < 0.72:
                 self.blacklist_ops()
-            elif x < 0.8 and v in NFTV:
+            elif x < 0.84 and v in NFTV:
                 self.confirm_nft(u, good=r.random() < 0.8)
             elif x < 0.86:
                 rec = self.call(OWNER, 'pause')
@@ -534,14 +554,16 @@ class History:
                 self.probe()
         if v in NFTV:
             for u in self.users:
-                if self.confirmed(u) > 0 and r.random() < 0.6:
+                if self.confirmed(u) > 0 and r.random() < r.choice([0.2, 0.6]):
                     self.confirm_nft(u, True)
-            if r.random() < 0.4:
+            if r.random() < 0.6:
                 self.blacklist_ops()
 
     # ---------------------------------------------------------------- phase WinnerSelection
     def budget(self):
         r = self.rng
+        if self.twin:
+            return r.choice([0, 1, 1, 2, 2, 3, 5])       # twins are about interruptions
         return r.choice(['-', '-', 0, 0, 1, 1, 2, 3, 5, 8])
 
     def run_step(self, ep, max_calls=400):
